@@ -36,10 +36,10 @@ def hSample : Core3.Func :=
             ⟨none, 24, [.flags [1], .tyval (.int 32) (.loc (.id 1)), .tyval (.ptr (.int 32) 0) (.glob [99]), .okw none, .align none], .none, []⟩,
             ⟨some (.id 3), 75, [.ty (.int 32), .val (.glob [102]), .tyvals [(.int 32, .loc (.id 1)), (.int 32, .const (.int 7))]], .none, []⟩,
             ⟨none, 74, [.val (.glob [101, 120, 116]), .tyvals [(.int 32, .loc (.id 3))]], .none, []⟩],
-      ⟨none, 26, [.retv (some (.int 32, .loc (.id 1)))], .none, [([120], 0)]⟩⟩], [], {}⟩
+      ⟨none, 26, [.retv (some (.int 32, .loc (.id 1)))], .none, [([120], 0)]⟩⟩], [], {}, []⟩
 
-/-- `declare void @ext(i32 %0)` -/
-def extSample : Core3.Func := ⟨.void, [101, 120, 116], [(.int 32, .id 0)], [], [9, 13], { unnamed := some 1, attrs := [37], partition := [112] }⟩
+/-- `declare extern_weak default void @ext(i32 zeroext %0) local_unnamed_addr readnone partition "p"` -/
+def extSample : Core3.Func := ⟨.void, [101, 120, 116], [(.int 32, .id 0)], [], [9, 13], { unnamed := some 1, attrs := [37], partition := [112] }, [[16]]⟩
 
 def wholeSample : Module := ⟨sample.typedefs, sample.globals ++ [⟨[99], false, .int 32, .int 5⟩], [core3Sample, hSample, extSample], metaSample⟩
 
@@ -76,7 +76,7 @@ def extMdSample : Module :=
   ⟨[], [],
    [⟨.void, [115], [(.int 32, .id 0)],
      [⟨.id 1, [], ⟨none, 82, [.tyval (.int 32) (.loc (.id 0)), .lab (.id 2)], .cases [(.int 32, .int 1, .id 2)], [([120], 0)]⟩⟩,
-      ⟨.id 2, [], ⟨none, 83, [.val (.glob [115]), .tyvals [(.int 32, .loc (.id 0))]], .dests (.id 2) (.id 2), [([100, 98, 103], 0), ([121], 0)]⟩⟩], [], {}⟩],
+      ⟨.id 2, [], ⟨none, 83, [.val (.glob [115]), .tyvals [(.int 32, .loc (.id 0))]], .dests (.id 2) (.id 2), [([100, 98, 103], 0), ([121], 0)]⟩⟩], [], {}, [[]]⟩],
    ⟨[], [⟨0, false, .nil⟩]⟩⟩
 
 /-- non-vacuity of the round trip with attachments on continuation lines: the printed text ends its switch with `<tab>], !x !0` and its invoke with
